@@ -37,6 +37,10 @@ Decided on src/engine/engine_collision_driver.c (clang AST, nothing is run):
               read, -1 sentinels, casts to unsigned), transitivity of < and of == for the small ones.  NaN keys are evaluated
               and recorded; they are outside the property's quantifier (real-valued configurations; mj_checkPos rejects NaN
               before the position stage) and are not failures unless NAN_STRICT.
+Instances confirmed by hand on the pinned tree: R-FINITE 20 (4 filter sites, 4 polarity sites, add_pair 1+4, filterBodyPair 5 + 2
+sites), R-MUSTPASS 29 (2 flags, 4 pushGeomGeom, 1 midphase leaf, 3+3 geom:flex calls, 7 exclude sites + signature, 2 + 3
+filterCollisionPair / explicit parameters, 3 add_pair), R-CMP 5.  The floors are lower (16 / 24 / 4) so that deleting one site
+is reported as the violation it causes rather than as a lost anchor.
 Not decided: that SAP / BVH pruning never drops a geometrically close pair; that m->body_contype is the OR of the geom masks
 (model compiler); sortedness of pair_signature / exclude_signature that the merge relies on.
 """
@@ -370,7 +374,7 @@ def check_add_pair(res, unit):
             continue
         cond, then, els = finite.if_parts(st)
         vs = sorted(cir.vars_in(cond))
-        if len(vs) != 4 or not terminates(then) or cir.has_call(cond):
+        if len(vs) < 2 or not terminates(then) or cir.has_call(cond) or model_fields([cond]):
             continue
         roles = {}
         for v in vs:
@@ -379,16 +383,18 @@ def check_add_pair(res, unit):
                 rs += resolve(did, rhs, ps)
             fields = {y for y in model_fields(rs) if y.endswith("_contype") or y.endswith("_conaffinity")}
             kinds = {f.rsplit("_", 1)[1] for f in fields}
-            sides = {p for p in var_names(rs) if p in ps and p != "m"}
-            # the body branch reaches the geoms through body_geomadr[bf]: follow one more level for the side
             if len(kinds) == 1:
                 roles[v] = (kinds.pop(), fields)
-        if len(roles) == 4:
+        if len(roles) == len(vs):
             hit = (st, cond, vs, roles)
             break
     if hit is None:
         raise AnalysisError("add_pair: the inlined contype/conaffinity compatibility test was not found")
     st, cond, vs, roles = hit
+    if len(vs) != 4:
+        res.bad("R-FINITE", "add_pair:inline-bitmask", DRV, st.get("line"),
+                f"`{cir.text(cond)}` tests {len(vs)} of the four masks (contype, conaffinity of both bodyflexes): {vs}")
+        return
     # sides: which bodyflex parameter feeds each accumulator: the parameter compared in the enclosing `bf < nbody` test
     par = finite.parents(fn)
     side = {}
@@ -405,9 +411,12 @@ def check_add_pair(res, unit):
                 y = par[id(y)]
                 if y.get("k") == "IfStmt":
                     c, _t, _e = finite.if_parts(y)
-                    ss |= {p for p in cir.vars_in(c) if p in ps and p not in ("m",) and
-                           (fn_param_type(fn, p) == "int")}
-        ss -= {"maxpair"}
+                    # only the `bf < nbody` tests: an int parameter compared with the body count
+                    for a in finite.conjuncts(c):
+                        a = cir.strip(a)
+                        if a.get("k") == "BinaryOperator" and a.get("op") in ("<", ">=") and \
+                                any(cir.text(r) == "m->nbody" for r in resolve(did, cir.kids(a)[1], ps)):
+                            ss |= {p for p in cir.vars_in(cir.kids(a)[0]) if p in ps and fn_param_type(fn, p) == "int"}
         side[v] = frozenset(ss)
     objs = []
     for v in vs:
@@ -542,12 +551,20 @@ def check_body_pair(res, unit):
                 keyed.append(None)
         site_info.append((call, keyed, objs))
     # positions: the site without literal arguments defines the roles; literal 0 is accepted for `asleep`
-    full = [k for _c, k, _o in site_info if None not in k and all(x[0] != "zero" for x in k)]
-    if not full:
-        raise AnalysisError("filterBodyPair: no call site whose arguments all have model-field provenance")
-    role_by_pos = full[0]
     want = {("weld", 0), ("weld", 1), ("parent", 0), ("parent", 1), ("asleep", 0), ("asleep", 1), ("dofnum", 0), ("dofnum", 1),
             ("dsbl", 0)}
+    cands = []
+    for _c, k, _o in site_info:
+        if None in k:
+            continue
+        # literal 0 (never asleep): the role of that position is the one no other argument of the site has
+        miss = want - set(k)
+        filled = [x if x[0] != "zero" else (next(iter(miss)) if len(miss) == 1 else x) for x in k]
+        cands.append(filled)
+    good = [k for k in cands if set(k) == want and len(k) == len(pn)]
+    role_by_pos = good[0] if good else (cands[0] if cands else None)
+    if role_by_pos is None:
+        raise AnalysisError("filterBodyPair: no call site whose arguments all have model-field provenance")
     if set(role_by_pos) != want or len(role_by_pos) != len(pn):
         res.bad("R-FINITE", "filterBodyPair:roles", DRV, sites[0].get("line"),
                 f"arguments of filterBodyPair do not cover (weld, weld-parent, asleep, dofnum) x 2 + disable flag: {role_by_pos}")
@@ -1169,9 +1186,6 @@ def sort_instances(unit, header=SORT_H):
     """functions of the unit generated by the sorting macros: (fn, macro name, comparator names)."""
     out = []
     for name, fn in unit.funcs.items():
-        if fn.get("sfile") != header and not any(
-                (x.get("sfile") == header) for x in cir.kids(cir.body(fn)) if x is not None):
-            continue
         b = cir.body(fn)
         if b is None or b.get("sfile") != header:
             continue
@@ -1229,7 +1243,7 @@ def run(res, tier):
             raise AnalysisError(f"anchor {a} missing in {DRV}")
     res.count("functions", len(unit.funcs))
 
-    res.rule("R-FINITE", "bitmask / body-pair filters equal the documented rules as finite truth tables at every use", floor=19)
+    res.rule("R-FINITE", "bitmask / body-pair filters equal the documented rules as finite truth tables at every use", floor=16)
     bm_name = check_bitmask(res, unit)
     wrappers, npol = polarity_sites(res, unit, bm_name)
     if not wrappers:
@@ -1237,7 +1251,7 @@ def run(res, tier):
     check_add_pair(res, unit)
     check_body_pair(res, unit)
 
-    res.rule("R-MUSTPASS", "every enqueue / collide call is dominated by the filters that apply to its pair", floor=22)
+    res.rule("R-MUSTPASS", "every enqueue / collide call is dominated by the filters that apply to its pair", floor=24)
     geomflex = geomflex_callees(unit, bm_name)
     if not geomflex:
         raise AnalysisError("no geom:flex collide function found")
@@ -1251,7 +1265,7 @@ def run(res, tier):
     check_fcp(res, unit, bm_name)
     check_broadphase(res, unit)
 
-    res.rule("R-CMP", "sort comparators are antisymmetric (and transitive) over all order types of their keys", floor=5)
+    res.rule("R-CMP", "sort comparators are antisymmetric (and transitive) over all order types of their keys", floor=4)
     inst = sort_instances(unit)
     if len(inst) < 3:
         raise AnalysisError(f"expected at least three mjSORT instantiations in {DRV}, found {[f.get('n') for f, _m, _c in inst]}")
